@@ -30,50 +30,153 @@ Proof. apply ssuffixb_iff. Qed.
 Theorem looks_like_url_spec f : looks_like_url f = true <-> ((exists r, f = "http://" ++ r) \/ (exists r, f = "https://" ++ r)).
 Proof. unfold looks_like_url. rewrite orb_true_iff, !sprefixb_iff. reflexivity. Qed.
 
+(* ---- newline translation ---- *)
+Fixpoint has_cr (s : string) : bool := match s with EmptyString => false | String c r => Ascii.eqb c crc || has_cr r end.
+
+Lemma universal_ind2 (P : string -> Prop) :
+  P EmptyString -> (forall c r, P r -> (forall c2 r2, r = String c2 r2 -> P r2) -> P (String c r)) -> forall s, P s.
+Proof.
+  intros H0 HS. assert (G : forall s, P s /\ (forall c2 r2, s = String c2 r2 -> P r2)).
+  { induction s as [|c r [IH1 IH2]].
+    - split; [exact H0 | discriminate].
+    - split; [apply HS; assumption|]. intros c2 r2 E. inversion E; subst. exact IH1. }
+  intro s. exact (proj1 (G s)).
+Qed.
+
+(* universal-newline input never delivers a carriage return *)
+Theorem universal_no_cr s : has_cr (universal s) = false.
+Proof.
+  induction s as [|c r IH IH2] using universal_ind2; [reflexivity|].
+  cbn [universal]. destruct (Ascii.eqb c crc) eqn:E.
+  - cbn [has_cr]. assert (L : Ascii.eqb lf crc = false) by reflexivity. rewrite L. cbn [orb].
+    destruct r as [|c2 r2]; [reflexivity|]. destruct (Ascii.eqb c2 lf); [exact (IH2 c2 r2 eq_refl) | exact IH].
+  - cbn [has_cr]. rewrite E, IH. reflexivity.
+Qed.
+
+(* text without a carriage return is delivered unchanged *)
+Theorem universal_id s : has_cr s = false -> universal s = s.
+Proof.
+  induction s as [|c r IH]; intro H; [reflexivity|]. cbn [has_cr] in H. apply orb_false_iff in H. destruct H as [Hc Hr].
+  cbn [universal]. rewrite Hc, (IH Hr). reflexivity.
+Qed.
+
+Theorem universal_idem s : universal (universal s) = universal s.
+Proof. apply universal_id, universal_no_cr. Qed.
+
+(* the three line-ending conventions of one text are delivered as the same text *)
+Fixpoint with_ending (e s : string) : string :=
+  match s with EmptyString => EmptyString | String c r => if Ascii.eqb c lf then e ++ with_ending e r else String c (with_ending e r) end.
+Theorem universal_crlf s : has_cr s = false -> universal (with_ending (String crc (String lf "")) s) = s.
+Proof.
+  induction s as [|c r IH]; intro H; [reflexivity|]. cbn [has_cr] in H. apply orb_false_iff in H. destruct H as [Hc Hr].
+  cbn [with_ending]. destruct (Ascii.eqb c lf) eqn:E.
+  - apply Ascii.eqb_eq in E. subst c. cbn [append universal]. rewrite !Ascii.eqb_refl. rewrite (IH Hr). reflexivity.
+  - cbn [universal]. rewrite Hc, (IH Hr). reflexivity.
+Qed.
+Theorem universal_cr_only s : has_cr s = false -> universal (with_ending (String crc "") s) = s.
+Proof.
+  induction s as [|c r IH]; intro H; [reflexivity|]. cbn [has_cr] in H. apply orb_false_iff in H. destruct H as [Hc Hr].
+  cbn [with_ending]. destruct (Ascii.eqb c lf) eqn:E.
+  - apply Ascii.eqb_eq in E. subst c. cbn [append universal]. rewrite Ascii.eqb_refl.
+    destruct (with_ending (String crc "") r) as [|c2 r2] eqn:W.
+    + cbn [universal] in IH. rewrite <- (IH Hr). reflexivity.
+    + destruct (Ascii.eqb c2 lf) eqn:E2.
+      * (* a line feed right after the carriage return: impossible, r has no CR and with_ending maps LF to CR *)
+        exfalso. destruct r as [|c3 r3]; [discriminate|]. cbn [with_ending] in W. destruct (Ascii.eqb c3 lf) eqn:E3.
+        -- cbn [append] in W. inversion W; subst. discriminate.
+        -- inversion W; subst. rewrite E2 in E3. discriminate.
+      * rewrite (IH Hr). reflexivity.
+  - cbn [universal]. rewrite Hc, (IH Hr). reflexivity.
+Qed.
+
+(* on a platform whose line separator is LF, universal-newline output is the identity *)
+Theorem expand_lf s : expand (String lf "") s = s.
+Proof. induction s as [|c r IH]; [reflexivity|]. cbn [expand]. destruct (Ascii.eqb c lf) eqn:E; [apply Ascii.eqb_eq in E; subst c; cbn [append]|]; rewrite IH; reflexivity. Qed.
+
+(* every text layer the helper creates for READING decodes with the requested encoding and translates line endings *)
+Theorem read_layer a p l : open_for_reading a = Ok p -> rplan_layer p = Some l -> l = {| l_enc := EncParam; l_nl := NlUniversal |}.
+Proof. destruct a as [f| | |]; cbn [open_for_reading]; intros H1 H2; inversion H1; subst; cbn [rplan_layer] in H2; inversion H2; reflexivity. Qed.
+(* every text layer the helper creates for WRITING encodes with the requested encoding - never the locale's *)
+Theorem write_layer_enc a p l : open_for_writing a = Ok p -> wplan_layer p = Some l -> l_enc l = EncParam.
+Proof.
+  destruct a as [f| | |]; cbn [open_for_writing]; intros H1 H2; [destruct (looks_gzipped f)| | |]; inversion H1; subst; cbn [wplan_layer] in H2; inversion H2; reflexivity.
+Qed.
+
 Section Codec.
-Variables text bytes : Type.
-Variable encode : text -> bytes.
-Variable decode : bytes -> text.
+Variable bytes : Type.
+Variable encode : encsel -> string -> bytes.
+Variable decode : encsel -> bytes -> string.
 Variable gzip : bytes -> bytes.
 Variable gunzip : bytes -> bytes.
-(* the assumed laws of the runtime codecs *)
-Hypothesis decode_encode : forall c, decode (encode c) = c.
+(* the assumed laws of the runtime codecs: only of the REQUESTED encoding; the locale's may be anything *)
+Hypothesis decode_encode : forall c, decode EncParam (encode EncParam c) = c.
 Hypothesis gunzip_gzip : forall b, gunzip (gzip b) = b.
 
+(* what a reader sees of the content c: a caller's text stream yields its text as it is; every
+   handle the helper opens itself delivers the content with its line endings translated *)
+Definition seen (a : arg) (c : string) : string := match a with ATextStream => c | _ => universal c end.
+
 (* every reader sees the same text whatever kind of source carries it: a path, a .gz path (URL or
-   local), an open text stream, an open binary stream; any other kind of argument is rejected *)
-Theorem read_uniform (a : arg) (c : text) :
+   local), an open binary stream; any other kind of argument is rejected *)
+Theorem read_uniform (a : arg) (c : string) :
   match open_for_reading a with
-  | Ok p => a <> AOther /\ read_text text bytes decode gunzip p (materialise text bytes encode gzip a c) = Some c
+  | Ok p => a <> AOther /\ read_text bytes decode gunzip p (materialise bytes encode gzip a c) = Some (seen a c)
   | Err e => a = AOther /\ e = ValueError
   end.
 Proof.
-  destruct a as [f| | |]; cbn [open_for_reading materialise read_text].
+  destruct a as [f| | |]; cbn [open_for_reading materialise read_text seen l_enc l_nl deliver].
   - split; [discriminate|]. destruct (looks_gzipped f); [rewrite gunzip_gzip|]; rewrite decode_encode; reflexivity.
   - split; [discriminate | reflexivity].
   - split; [discriminate|]. rewrite decode_encode. reflexivity.
   - auto.
 Qed.
 
-(* every writer leaves, in a target of each kind, exactly what a reader of that kind reads back as c *)
-Theorem write_uniform (a : arg) (c : text) :
+(* ... and a text stream opened the default way on the same file (universal newlines) yields that very text *)
+Theorem read_uniform_all_kinds (a : arg) (c : string) p : open_for_reading a = Ok p ->
+  read_text bytes decode gunzip p (materialise bytes encode gzip a (match a with ATextStream => universal c | _ => c end)) = Some (universal c).
+Proof.
+  intro H. pose proof (read_uniform a (match a with ATextStream => universal c | _ => c end)) as R. rewrite H in R.
+  destruct R as [_ R]. rewrite R. destruct a; reflexivity.
+Qed.
+
+(* content without carriage returns is seen unchanged through every kind *)
+Theorem read_uniform_plain (a : arg) (c : string) p : has_cr c = false -> open_for_reading a = Ok p ->
+  read_text bytes decode gunzip p (materialise bytes encode gzip a c) = Some c.
+Proof.
+  intros Hc H. pose proof (read_uniform a c) as R. rewrite H in R. destruct R as [_ R]. rewrite R.
+  destruct a; cbn [seen]; try rewrite (universal_id c Hc); reflexivity.
+Qed.
+
+(* every writer leaves, in a target of each kind, exactly what a source of that kind holds for c -
+   on a platform whose line separator is LF - and a reader of the same kind reads it back *)
+Theorem write_uniform (a : arg) (c : string) :
   match open_for_writing a, open_for_reading a with
-  | Ok w, Ok r => a <> AOther /\ written text bytes encode gzip w c = materialise text bytes encode gzip a c /\
-                  read_text text bytes decode gunzip r (written text bytes encode gzip w c) = Some c
+  | Ok w, Ok r => a <> AOther /\ written bytes encode gzip (String lf "") w c = materialise bytes encode gzip a c /\
+                  read_text bytes decode gunzip r (written bytes encode gzip (String lf "") w c) = Some (seen a c)
   | Err e, Err e' => a = AOther /\ e = ValueError /\ e' = ValueError
   | _, _ => False
   end.
 Proof.
-  destruct a as [f| | |]; cbn [open_for_writing open_for_reading written materialise read_text].
-  - split; [discriminate|]. split; [reflexivity|]. destruct (looks_gzipped f); [rewrite gunzip_gzip|]; rewrite decode_encode; reflexivity.
-  - split; [discriminate|]. split; reflexivity.
-  - split; [discriminate|]. split; [reflexivity|]. rewrite decode_encode. reflexivity.
+  destruct a as [f| | |]; cbn [open_for_writing open_for_reading].
+  - destruct (looks_gzipped f) eqn:G; cbn [written materialise read_text seen l_enc l_nl emit deliver]; rewrite ?G, ?expand_lf.
+    + split; [discriminate|]. split; [reflexivity|]. rewrite gunzip_gzip, decode_encode. reflexivity.
+    + split; [discriminate|]. split; [reflexivity|]. rewrite decode_encode. reflexivity.
+  - cbn [written materialise read_text seen]. split; [discriminate|]. split; reflexivity.
+  - cbn [written materialise read_text seen l_enc l_nl emit deliver]. rewrite expand_lf. split; [discriminate|]. split; [reflexivity|]. rewrite decode_encode. reflexivity.
   - auto.
 Qed.
 End Codec.
+
+(* PLATFORM CAVEAT (not executable in this sandbox): where os.linesep is CR LF the plain-path writer
+   (universal-newline output) and the .gz-path writer (newline='') emit different text for the same rows *)
+Example write_newline_platform_caveat :
+  let crlf := String crc (String lf "") in
+  emit crlf NlUniversal (String "a" crlf) <> emit crlf NlRaw (String "a" crlf).
+Proof. vm_compute. discriminate. Qed.
 
 Theorem other_rejected : open_for_reading AOther = Err ValueError /\ open_for_writing AOther = Err ValueError.
 Proof. split; reflexivity. Qed.
 
 Print Assumptions read_uniform.
 Print Assumptions write_uniform.
+Print Assumptions universal_no_cr.
